@@ -8,6 +8,7 @@ import (
 	"errors"
 	"fmt"
 	"io"
+	"math/big"
 	"net/http"
 	"net/http/httptest"
 	"net/url"
@@ -38,7 +39,7 @@ var queryValues = []string{
 	`"str"`, `"a\nb \"q\""`, `""`, `25`, `-16`, `3.259`, `+7`, `1e5`, `0x1F`, `1_000`, `NaN`, `nan`, `Inf`, `-inf`, `+Inf`, `Infinity`, `-Infinity`,
 	`true`, `false`, `null`, `TRUE`, `Null`, `'aGVsbG8sIHdvcmxk'`, `'aGk='`, `plain`, ``, `.5`, `5.`, `1e400`, `0x1p-2`, `-0`, `007`, `1e`, `--1`,
 	`9223372036854775808`, `x"y`, `it's`,
-	`'AA=='`, `'AAA='`, `'AAAA'`, `''`, `'/+8='`, `'aGVsbG8sIHdvcmxkIQ=='`, `"é"`, `"\u00e9\ud83d\ude00"`, `héllo wörld`, `a b`, `a+b`, `100%`, `-`, `+`, `.`, `1.2.3`, `12345678901234567890`, `-9223372036854775808`, `0.1`, `-0.0`, `00.5`,
+	`'AA=='`, `'AAA='`, `'AAAA'`, `''`, `'/+8='`, `'aGVsbG8sIHdvcmxkIQ=='`, `"é"`, `"\u00e9\ud83d\ude00"`, `9007199254740993`, `1700000000123456789`, `-9007199254740993`, `héllo wörld`, `a b`, `a+b`, `100%`, `-`, `+`, `.`, `1.2.3`, `12345678901234567890`, `-9223372036854775808`, `0.1`, `-0.0`, `00.5`,
 }
 
 // values that make the parser report an error (at most one per URL, so that Go
@@ -56,6 +57,7 @@ type getReq struct {
 	CancelCtx bool
 	cancel    context.CancelFunc
 	Cancelled bool // the context was cancelled while the handler was provably held
+	Entered   bool // its handler was entered (judged after the run)
 }
 
 func scenarioC19Getter(r *Run) {
@@ -165,6 +167,16 @@ func scenarioC19Getter(r *Run) {
 			if !q.Done {
 				r.Fail("wrong-status", "GET %s never completed", q.URL)
 				return
+			}
+			if q.Tag != "" {
+				if h := th.recs[q.Tag]; h != nil {
+					q.Entered = h.Enters > 0
+					// one JSON-RPC call per HTTP request
+					if h.Enters > 1 {
+						r.Fail("wrong-status", "GET %s: its handler ran %d times, want one call per request", q.URL, h.Enters)
+						return
+					}
+				}
 			}
 			if why, cls := judgeGet(q, useQuery, r.Sim.AutoAdvances > 0); why != "" {
 				r.Fail(cls, "GET %s: %s; status %d body %q", q.URL, why, q.Status, q.Body)
@@ -289,7 +301,7 @@ func judgeGet(q *getReq, useQuery bool, autoAdvanced bool) (why, cls string) {
 			if q.Status != 500 && !(q.Status == 200 && compactJSON(q.Body) == fmt.Sprintf(`{"tag":%q}`, q.Tag)) {
 				return "the request's context ended while its handler was held: want 500, or 200 with the handler's own result", "wrong-status"
 			}
-		} else if q.Status == 500 && autoAdvanced {
+		} else if q.Status == 500 && autoAdvanced && q.Entered {
 			// the handler was held for as long as the workload pleased and a timer
 			// of the library expired meanwhile: a call that timed out is "any
 			// other failure" (C19 does not forbid a default timeout)
@@ -659,11 +671,63 @@ func refQueryParams(rawURL string, useQuery bool) (any, string) {
 // sameJSONValue compares two JSON texts as values (numbers by value: -0 and 0,
 // 1 and 1.0 are the same number).
 func sameJSONValue(a, b string) bool {
-	var va, vb any
-	if json.Unmarshal([]byte(a), &va) != nil || json.Unmarshal([]byte(b), &vb) != nil {
+	dec := func(s string) (any, bool) {
+		d := json.NewDecoder(strings.NewReader(s))
+		d.UseNumber()
+		var v any
+		if d.Decode(&v) != nil {
+			return nil, false
+		}
+		return v, true
+	}
+	va, oka := dec(a)
+	vb, okb := dec(b)
+	if !oka || !okb {
 		return a == b
 	}
-	return reflect.DeepEqual(va, vb)
+	return sameValue(va, vb)
+}
+
+// sameValue compares decoded JSON values; numbers exactly (as rationals), so
+// that 9007199254740993 is not 9007199254740992.
+func sameValue(a, b any) bool {
+	switch x := a.(type) {
+	case json.Number:
+		y, ok := b.(json.Number)
+		if !ok {
+			return false
+		}
+		rx, ok1 := new(big.Rat).SetString(x.String())
+		ry, ok2 := new(big.Rat).SetString(y.String())
+		if !ok1 || !ok2 {
+			return x.String() == y.String()
+		}
+		return rx.Cmp(ry) == 0
+	case map[string]any:
+		y, ok := b.(map[string]any)
+		if !ok || len(x) != len(y) {
+			return false
+		}
+		for k, v := range x {
+			w, ok := y[k]
+			if !ok || !sameValue(v, w) {
+				return false
+			}
+		}
+		return true
+	case []any:
+		y, ok := b.([]any)
+		if !ok || len(x) != len(y) {
+			return false
+		}
+		for i := range x {
+			if !sameValue(x[i], y[i]) {
+				return false
+			}
+		}
+		return true
+	}
+	return reflect.DeepEqual(a, b)
 }
 
 // isEmptyParams: no parameters at all, written as null or as an empty object.
